@@ -96,6 +96,7 @@ type amCaps struct {
 	Nullable      bool
 	Consts        bool
 	Enums         bool
+	ObjectLevelNullableUnion bool
 }
 
 func capsFor(format string) amCaps {
@@ -138,7 +139,8 @@ type amGen struct {
 	caps amCaps
 	s    *amSchema
 	// planned objects: name → kind, so that refs can be generated before the target exists
-	plan []amPlan
+	plan   []amPlan
+	unions []*amType
 }
 
 type amPlan struct {
@@ -223,7 +225,16 @@ func (g *amGen) objType(p amPlan, profile string) *amType {
 		return g.enum(true)
 	case "union":
 		g.tag("obj:union-scalars")
-		return g.unionScalars()
+		u := g.unionScalars()
+		if u.Nullable {
+			// object-level `a | b | null` is kept for the C02 workload only (generated Go does not compile)
+			if !g.caps.ObjectLevelNullableUnion {
+				c := *u
+				c.Nullable = false
+				u = &c
+			}
+		}
+		return u
 	case "arr":
 		g.tag("obj:array")
 		return &amType{K: "array", Elem: g.leafOrRef(p.name, profile, false), MinLen: -1, MaxLen: -1}
@@ -250,6 +261,28 @@ func (g *amGen) enum(ints bool) *amType {
 }
 
 func (g *amGen) unionScalars() *amType {
+	// the same union shape is sometimes used twice (passes that name unions reuse the generated object)
+	if len(g.unions) > 0 && g.rng.Chance(0.4) {
+		prev := pick(g.rng, g.unions)
+		cp := &amType{K: "union", MinLen: -1, MaxLen: -1}
+		for _, b := range prev.Branches {
+			bc := *b
+			cp.Branches = append(cp.Branches, &bc)
+		}
+		cp.Nullable = prev.Nullable
+		g.tag("union:reused-shape")
+		return cp
+	}
+	t := g.newUnionScalars()
+	if g.caps.Nullable && g.caps.NullableRefs && g.rng.Chance(0.4) {
+		t.Nullable = true
+		g.tag("union:scalars+null")
+	}
+	g.unions = append(g.unions, t)
+	return t
+}
+
+func (g *amGen) newUnionScalars() *amType {
 	t := &amType{K: "union", MinLen: -1, MaxLen: -1}
 	cands := []*amType{
 		{K: "string", MinLen: -1, MaxLen: -1}, {K: "bool", MinLen: -1, MaxLen: -1},
@@ -288,7 +321,7 @@ func (g *amGen) structType(depth int, owner string, profile string) *amType {
 				f.Required = false
 			}
 		}
-		if g.caps.Nullable && g.rng.Chance(0.2) && g.nullableOK(f.T) {
+		if g.caps.Nullable && f.T.K != "union" && g.rng.Chance(0.2) && g.nullableOK(f.T) {
 			f.T.Nullable = true
 			g.tag("nullable")
 			if f.Required {
@@ -334,6 +367,8 @@ func (g *amGen) nullableOK(t *amType) bool {
 		return true
 	case "array", "map", "struct", "enum":
 		return g.caps.NullableRefs // formats with a real `T | null` construct
+	case "union":
+		return g.caps.NullableRefs && t.Disc == ""
 	}
 	return false
 }
